@@ -9,7 +9,8 @@
 From Coq Require Import List Arith Bool Lia.
 Import ListNotations.
 From TP Require Import Global.Threads Global.ThreadsProofs Global.SharedName Global.SharedNameProofs
-     Gen.SharedAccess.
+     Gen.SharedAccess Global.Cache Global.CacheProofs Global.Compose Global.ComposeProofs
+     Global.ClassModel Global.ClassModelProofs.
 
 (* The full statement, for the validators of the generated table: whatever the schedule, every
    thread validating the same field of the same class reads - hence returns - what it does alone.
@@ -81,6 +82,106 @@ Theorem C20_classified_racy : forall e,
                forall m0 m, obs_in m0 tr 0 <> obs_seq m (nth 0 (sample_threads e) []).
 Proof. exact classified_racy_witness. Qed.
 
+(* ---- several fields / nested classes: safety composes over disjoint cells (Global/Compose.v) ---- *)
+
+(* two thread families on disjoint cells, each safe: the family whose threads run their program of the
+   first followed by their program of the second is safe *)
+Theorem C20_compose_safe : forall a b,
+    length a = length b -> safe_b a = true -> safe_b b = true -> disjoint_b a b = true ->
+    safe_b (zip_app a b) = true.
+Proof. exact safe_zip_app. Qed.
+
+(* safety does not depend on WHICH Field objects a validator works on (renaming of cells) *)
+Theorem C20_shift_invariant : forall k ts, safe_b (shift_family k ts) = safe_b ts.
+Proof. exact safe_b_shift. Qed.
+
+(* any number of fields: every interleaving of operations that each validate all the fields *)
+Theorem C20_composed_all_schedules : forall n fams m0 tr i,
+    Forall (fun f => length f = n) fams ->
+    forallb safe_b fams = true ->
+    pairwise_disjoint_b n fams = true ->
+    interleave (compose_all n fams) tr -> i < n ->
+    obs_in m0 tr i = obs_seq m0 (nth i (compose_all n fams) []).
+Proof. exact composed_all_schedules. Qed.
+
+(* a class whose fields' validators (ANY generated access lists) are all classified safe *)
+Theorem C20_class_safe_all_schedules : forall es m0 tr i,
+    class_safe_b es = true -> interleave (class_threads es) tr -> i < 3 ->
+    obs_in m0 tr i = obs_seq m0 (nth i (class_threads es) []).
+Proof. exact class_safe_all_schedules. Qed.
+
+(* ---- caches shared by all threads (Global/Cache.v; protocols generated into Gen/CacheAccess.v) ---- *)
+
+(* if every store of every protocol operating on a cache slot stores the completely computed value
+   (a function of the key alone), then under EVERY schedule - any number of threads, any number of
+   pre-emptions, each thread running any of the protocols - every thread that returns, returns the
+   computed value ... *)
+Theorem C20_cache_final_safe : forall ps sched s i r,
+    forallb stores_final ps = true -> slot_ok s ->
+    cresult (crun sched s (cstart ps)) i = Some r -> r = CFinal.
+Proof. exact cache_final_safe. Qed.
+
+(* ... which is what the protocol returns when it runs alone (and it leaves the slot empty or filled
+   with the computed value) *)
+Theorem C20_cache_final_alone : forall p s,
+    stores_final p = true -> slot_ok s ->
+    snd (calone s p) = CFinal /\ slot_ok (fst (calone s p)).
+Proof. exact cache_final_alone. Qed.
+
+(* total correctness: whatever the other threads do, a thread that is scheduled often enough (the length of
+   its protocol + 1 times) HAS returned, and has returned the completely computed value *)
+Theorem C20_cache_final_complete : forall ps sched s i p,
+    forallb stores_final ps = true -> slot_ok s ->
+    nth_error ps i = Some p ->
+    S (length p) <= count_occ Nat.eq_dec sched i ->
+    cresult (crun sched s (cstart ps)) i = Some CFinal.
+Proof. exact cache_final_complete. Qed.
+
+(* the cache is a DICTIONARY of slots and every thread works on the slot of its own key: seen from any key,
+   the run of the whole dictionary under any schedule IS the single-slot run of that key's threads ... *)
+Theorem C20_cache_keys_independent : forall sched m ts k,
+    crun sched (m k) (kproj k ts)
+    = (fst (krun sched m ts) k, kproj k (snd (krun sched m ts))).
+Proof. exact krun_project. Qed.
+
+(* ... hence the single-slot theorem holds for the whole cache: any keys, any threads, any schedule *)
+Theorem C20_cache_keyed_final_safe : forall kps sched m i r,
+    forallb (fun kp : nat * cprog => stores_final (snd kp)) kps = true ->
+    (forall k, slot_ok (m k)) ->
+    kresult (krun sched m (kstart kps)) i = Some r -> r = CFinal.
+Proof. exact cache_keyed_final_safe. Qed.
+
+(* `calone` is the small-step semantics with only that thread scheduled *)
+Theorem C20_cache_alone_is_run : forall p s,
+    crun (repeat 0 (S (length p))) s [Running p] = (fst (calone s p), [Done (snd (calone s p))]).
+Proof. exact calone_is_crun. Qed.
+
+(* a protocol whose first store puts anything else into the slot (a placeholder, a partially built
+   value): under the constructed schedule a second thread that looks the slot up RETURNS that value *)
+Theorem C20_cache_placeholder_witness : forall pre tag post loc rest,
+    no_store pre = true -> only_local loc = true ->
+    cresult (crun (placeholder_sched pre loc) None
+                  (cstart [pre ++ CStore (COther tag) :: post; loc ++ CLookup :: rest])) 1
+    = Some (COther tag).
+Proof. exact cache_placeholder_witness. Qed.
+
+(* applied to ANY generated table entry through the vm_compute-decided classification *)
+Theorem C20_cache_classified_safe : forall ps sched s i r,
+    cache_classify ps = CacheSafe -> slot_ok s ->
+    cresult (crun sched s (cstart ps)) i = Some r -> r = CFinal.
+Proof. exact cache_classified_safe. Qed.
+
+Theorem C20_cache_classified_racy : forall ps,
+    cache_classify ps = CacheRacy ->
+    exists p q, In p ps /\ In q ps /\
+                exists sched tag, cresult (crun sched None (cstart [p; q])) 1 = Some (COther tag).
+Proof. exact cache_classified_racy. Qed.
+
+Theorem C20_cache_safe_excludes_witness : forall ps sched i tag,
+    cache_classify ps = CacheSafe ->
+    cresult (crun sched None (cstart ps)) i = Some (COther tag) -> False.
+Proof. exact cache_safe_excludes_witness. Qed.
+
 Print Assumptions C20_private_safe.
 Print Assumptions C20_private_b_meaning.
 Print Assumptions C20_idempotent_write_safe.
@@ -90,6 +191,20 @@ Print Assumptions C20_find_race_sound.
 Print Assumptions C20_safe_excludes_race.
 Print Assumptions C20_classified_safe.
 Print Assumptions C20_classified_racy.
+Print Assumptions C20_compose_safe.
+Print Assumptions C20_shift_invariant.
+Print Assumptions C20_composed_all_schedules.
+Print Assumptions C20_class_safe_all_schedules.
+Print Assumptions C20_cache_final_safe.
+Print Assumptions C20_cache_final_alone.
+Print Assumptions C20_cache_final_complete.
+Print Assumptions C20_cache_keys_independent.
+Print Assumptions C20_cache_keyed_final_safe.
+Print Assumptions C20_cache_alone_is_run.
+Print Assumptions C20_cache_placeholder_witness.
+Print Assumptions C20_cache_classified_safe.
+Print Assumptions C20_cache_classified_racy.
+Print Assumptions C20_cache_safe_excludes_witness.
 
 (* non-vacuity: three threads; cell 1 is written by all with the same constant before being read,
    cell 2 is private to thread 0, cell 3 is only read; the hypothesis holds, and a fully
@@ -116,3 +231,47 @@ Example C20_witness_nonvacuous :
   exists s o, find_race [] [W 1 (WConst [7;0]); R 1; R 1; W 1 (WConst [7;1]); R 1; R 1]
                            [W 1 (WConst [7;0]); R 1; R 1] = Some (s, o).
 Proof. eexists. eexists. vm_compute. reflexivity. Qed.
+
+(* caches, non-vacuity: the protocol of today's aggregated-mapper cache (lookup, compute, store the
+   returned value) satisfies the hypothesis, and three threads fully interleaved all return the computed
+   value; the same protocol with a placeholder reserved first is classified racy and the constructed
+   schedule makes the second thread return the placeholder *)
+Example C20_cache_nonvacuous :
+  let p := [CLookup; CLocal; CStore CFinal] in
+  stores_final p = true /\ cache_classify [p] = CacheSafe /\
+  crun [0; 1; 2; 0; 1; 2; 0; 1; 2; 0; 1; 2] None (cstart [p; p; p])
+  = (Some CFinal, [Done CFinal; Done CFinal; Done CFinal]).
+Proof. vm_compute. repeat split; reflexivity. Qed.
+
+Example C20_cache_witness_nonvacuous :
+  let p := [CLookup; CStore (COther 263); CLocal; CStore CFinal] in
+  cache_classify [p] = CacheRacy /\ snd (calone None p) = CFinal /\
+  cresult (crun (placeholder_sched [CLookup] []) None (cstart [p; p])) 1 = Some (COther 263).
+Proof. vm_compute. repeat split; reflexivity. Qed.
+
+(* many keys, non-vacuity: two threads on key 1 (one of them reserving a placeholder) and one thread on key 2:
+   the placeholder reaches the second thread of key 1 and never the thread of key 2 *)
+Example C20_cache_keys_nonvacuous :
+  let p := [CLookup; CLocal; CStore CFinal] in
+  let bad := [CLookup; CStore (COther 9); CStore CFinal] in
+  kresult (krun [0; 0; 2; 1; 2; 2; 2] (fun _ => None) (kstart [(1, bad); (1, p); (2, p)])) 1 = Some (COther 9) /\
+  kresult (krun [0; 0; 2; 1; 2; 2; 2] (fun _ => None) (kstart [(1, bad); (1, p); (2, p)])) 2 = Some CFinal.
+Proof. vm_compute. split; reflexivity. Qed.
+
+(* composition, non-vacuity: a class with a Set-like field (one shared item name, constant) and a Map-like field
+   (two constant names), as literal access lists: the class is safe, its three sample operations have 21/15/27
+   actions, and the cells of the two fields are disjoint after renaming *)
+From Coq Require Import String.
+Definition ex_set : ventry :=
+  {| v_name := "set"%string; v_file := ""%string;
+     v_acc := [AWrite TShared VSelf Once 1; ACallSet TShared ScrPerIter PerIter 2; AReadBack TShared ScrPerIter PerIter 3] |}.
+Definition ex_map : ventry :=
+  {| v_name := "map"%string; v_file := ""%string;
+     v_acc := [AWrite (TFixed 0) (VSelfSuffix 0) Once 1; AWrite (TFixed 1) (VSelfSuffix 1) Once 2;
+               ACallSet (TFixed 0) ScrPerIter PerIter 3; ACallSet (TFixed 1) ScrPerIter PerIter 4;
+               AReadBack (TFixed 1) ScrPerIter PerIter 5; AReadBack (TFixed 0) ScrPerIter PerIter 5] |}.
+Example C20_class_nonvacuous :
+  class_safe_b [ex_set; ex_map] = true /\
+  map (@List.length action) (class_threads [ex_set; ex_map]) = [21; 15; 27] /\
+  pairwise_disjoint_b 3 (class_families [ex_set; ex_map]) = true.
+Proof. vm_compute. repeat split; reflexivity. Qed.
